@@ -38,12 +38,48 @@ def descriptor_table(ctx, fc_args, tabs):
                          "%r uses %r" % (text, fields))
 
 
+def builder_call_sites(ctx):
+    """U1's corollary needs the three builders to be handed the SAME list: at every call site the buf_args argument is the
+    C statement row's list (result: .buf_args / .buf_extra; argument: .buf_args or the default ["arg"]), in the same
+    sequence in wrapc.wrap_function, wrapf.wrap_function_interface and wrapf.wrap_function_impl, and both classes have
+    the same default."""
+    import ast
+    import os
+    import re
+    spec = {("wrapc.py", "Wrapc", "wrap_function"): ("build_proto_list", 3),
+            ("wrapf.py", "Wrapf", "wrap_function_interface"): ("build_arg_list_interface", 5),
+            ("wrapf.py", "Wrapf", "wrap_function_impl"): ("build_arg_list_impl", 6)}
+    want = ["R.buf_args", "A.buf_args or self._default_buf_args", "R.buf_extra"]
+    defaults = {}
+    for (fn, cls, meth), (callee, pos) in sorted(spec.items()):
+        tree = ast.parse(open(os.path.join(REPO, "shroud", fn)).read())
+        c = [n for n in tree.body if isinstance(n, ast.ClassDef) and n.name == cls][0]
+        for m in c.body:
+            if isinstance(m, ast.Assign) and any(isinstance(t, ast.Name) and t.id == "_default_buf_args" for t in m.targets):
+                defaults[cls] = ast.unparse(m.value)
+        f = [m for m in c.body if isinstance(m, ast.FunctionDef) and m.name == meth][0]
+        calls = sorted((n for n in ast.walk(f) if isinstance(n, ast.Call) and isinstance(n.func, ast.Attribute)
+                        and n.func.attr == callee), key=lambda n: n.lineno)
+        got = []
+        for n in calls:
+            e = ast.unparse(n.args[pos]) if len(n.args) > pos else "?"
+            e = re.sub(r'\b(c_)?result_blk\b', "R", e)
+            e = re.sub(r'\b(c_)?intent_blk\b', "A", e)
+            got.append(e)
+        ctx.item("C04/U1/call-sites:%s.%s" % (cls, meth), got == want,
+                 "%s.%s hands %r to %s; the three builders agree only when each gets the C row's own list %r" % (
+                     cls, meth, got, callee, want), sample={"function": "%s.%s" % (cls, meth), "buf_args_arguments": got})
+    ctx.item("C04/U1/call-sites:default-buf-args", len(set(defaults.values())) == 1 and len(defaults) == 2,
+             "Wrapc and Wrapf must use the same default buf_args: %r" % defaults)
+
+
 def run(ctx):
     tabs = I.load_tables(REPO)
     I.fortran_c_agreement(ctx, tabs)
     I.lookup_path_agreement(ctx, REPO)
     from contracts import fc_args
     descriptor_table(ctx, fc_args, tabs)
+    builder_call_sites(ctx)
     units = fc_args.UNITS
     mon = ("m_fcagree", lambda v: None, lambda nm: None, 80)
     ctx.pyvc(units, dict((u.name, mon) for u in units))
@@ -60,6 +96,12 @@ def run(ctx):
                         "bound": "%d libraries" % r["tried"]})
     if r["violation"]:
         ctx.violation("bounded/m_fcagree", {"inputs": r["inputs"], "observed": r["violation"]}, True)
+    import json
+    for k in ctx.known:
+        if k["status"] == "open" and k.get("replay"):
+            res = ctx.monitor(k["replay"]["monitor"], "replay", json.dumps(k["replay"]["inputs"]))
+            if res.get("violation"):
+                ctx.report_known(k)
     ctx.extra["exhaustive"] = True
     ctx.trusted += [
         "interoperability oracle written from ISO/IEC 1539-1 clause 18 (kind table, VALUE <-> by-value, pointer <-> "
